@@ -39,6 +39,15 @@ class X:
     def num(self, v):
         if isinstance(v, bool):
             raise Unresolvable("bool")
+        if type(v) in (int, float):
+            return v
+        # numpy scalars handed in through an override dictionary mean their value
+        import numbers
+
+        if isinstance(v, numbers.Integral):
+            return int(v)
+        if isinstance(v, numbers.Real):
+            return float(v)
         if isinstance(v, (int, float)):
             return v
         raise Unresolvable("not a number: %r" % (type(v),))
